@@ -88,3 +88,34 @@ def width_gev(name: str):
     if i is None or i not in TABLE:
         return None
     return TABLE[i]["width"] / 1000.0
+
+
+# ---- PDG-style names (conversions.csv holds PDGID, PDGNAME, EVTGENNAME per row) -------------------
+PDG_NAME2ID = {}
+PDG_ID2NAME = {}
+with open(os.path.join(_DIR, "conversions.csv"), encoding="utf_8") as _f:
+    for _r in csv.DictReader((line for line in _f if not line.startswith("#")), skipinitialspace=True):
+        try:
+            _i = int(_r["PDGID"])
+        except (ValueError, TypeError):
+            continue
+        PDG_NAME2ID[_r["PDGNAME"].strip()] = _i
+        PDG_ID2NAME[_i] = _r["PDGNAME"].strip()
+
+
+def base_cc_pdg(name: str) -> str:
+    """Conjugate of a PDG-style name: the PDG-style name of the negated ID (same name when self-conjugate).
+    The conjugation tables are those of the EvtGen naming: a PDG name whose ID has no EvtGen name has no known
+    conjugate and is returned wrapped."""
+    if name not in PDG_NAME2ID:
+        return f"ChargeConj({name})"
+    i = PDG_NAME2ID[name]
+    if i not in EVT_ID2NAME:
+        return f"ChargeConj({name})"
+    c = base_cc(EVT_ID2NAME[i])
+    if c.startswith("ChargeConj("):
+        return f"ChargeConj({name})"
+    j = EVT_NAME2ID[c]
+    if j not in PDG_ID2NAME:
+        return f"ChargeConj({name})"
+    return PDG_ID2NAME[j]
